@@ -203,6 +203,8 @@ def menu(M, seen):
             add({"op": "setitem", "name": nm, "form": "len1col"})
         if k >= 1:
             add({"op": "setitem", "name": nm, "form": "wrong"})
+            if n >= 1:
+                add({"op": "setitem", "name": nm, "form": "empty"})
     if k >= 1:
         # a two-dimensional DataFrameColumn of the right length must be rejected, not stored
         add({"op": "setitem", "name": "new", "form": "2d"})
@@ -327,6 +329,8 @@ def value_of(form, n, M):
     if form == "wrong":
         m = n + 2
         return list(range(m)), list(range(m))
+    if form == "empty":
+        return [], []   # no elements at all: not a scalar, not length one, not nrow (for nrow >= 1)
     raise ValueError(form)
 
 
